@@ -215,6 +215,10 @@ def dtype_cases():
     for name in DT_SCORERS:
         for dt in DTYPES:
             out.append({"scorer": name, "dtype": dt, "n": 200 if dt in ("int16", "uint16", "int32", "uint32", "int64", "uint64") else 120})
+    # long series: products of two positions exceed 2^31 (and 2^32), so 32-bit cuts must be widened before any arithmetic
+    for name in ("cusum", "l2", "gvar", "chg-l2"):
+        for dt in ("int32", "uint32", "int64"):
+            out.append({"scorer": name, "dtype": dt, "n": 100000, "long": True})
     return out
 
 
@@ -223,13 +227,15 @@ def dtype_rows(c, k, ms):
     info = np.iinfo(c["dtype"])
     cand = []
     base = [0, 1, 2, 3, 5, 10, 50, 60, 90, 100, 110, 118, 119, n - 1, n]
+    if c.get("long"):
+        base = [0, 3, 40000, 46341, 50000, 65536, 70000, 99990, n - 1, n]
     rng = np.random.default_rng(len(c["scorer"]) * 31 + DTYPES.index(c["dtype"]))
-    for _ in range(60):  # increasing rows inside the data (mostly valid)
+    for _ in range(12 if c.get("long") else 60):  # increasing rows inside the data (mostly valid)
         cand.append(sorted(int(v) for v in rng.choice(base, size=k, replace=False)))
-    for _ in range(40):  # arbitrary order: ties, inversions
+    for _ in range(6 if c.get("long") else 40):  # arbitrary order: ties, inversions
         cand.append([int(v) for v in rng.choice(base, size=k, replace=True)])
     ext = [info.min, info.min + 1, -2, -1, info.max - 1, info.max, n + 1, n + 2, 126, 127]
-    for _ in range(60):  # values at the ends of the dtype's range mixed in (wrap-around candidates)
+    for _ in range(8 if c.get("long") else 60):  # values at the ends of the dtype's range mixed in (wrap-around candidates)
         row = [int(v) for v in rng.choice(base, size=k, replace=True)]
         row[int(rng.integers(k))] = int(rng.choice(ext))
         if rng.random() < 0.5:
@@ -278,6 +284,61 @@ def oracle_dtype(c, r):
     return None
 
 
+
+# ------------------------------------------------------------------------------------ batches
+
+
+def batch_cases():
+    out = []
+    for name in ("l2", "cusum", "chg-l2", "l2saving", "loc-l2", "gvar"):
+        for seed in range(6):
+            out.append({"scorer": name, "n": 9, "seed": seed})
+    return out
+
+
+def impl_batch(c):
+    """batches of 2-4 rows in which valid and invalid rows (out of range, ties, inversions) occupy every position: a batch
+    is accepted iff every row is (theorem checkCuts_ok_iff), and accepted batches score like their rows one by one"""
+    n = c["n"]
+    X = data(n, 1, 7)
+    g = np.random.default_rng(c["seed"] + 1000 * len(c["scorer"]))
+    try:
+        sc = mk(c["scorer"], 1).fit(X)
+        ms, k = int(sc.min_size), sc.expected_cut_entries
+    except Exception as ex:
+        return {"outcome": "other:" + type(ex).__name__, "msg": str(ex)[:200]}
+    out = []
+    pool = list(range(-2, n + 3))
+    for _ in range(120):
+        rows = []
+        for _ in range(int(g.integers(2, 5))):
+            r = sorted(int(v) for v in g.choice(range(0, n + 1), size=k, replace=False)) if g.random() < 0.7 else [int(v) for v in g.choice(pool, size=k)]
+            rows.append(r)
+        cls, v = classify(lambda: sc.evaluate(np.array(rows)))
+        singles = [classify(lambda r=r: sc.evaluate(np.array([r]))) for r in rows]
+        same = None
+        if cls == "ok" and all(sc_ == "ok" for sc_, _ in singles):
+            same = bool(np.allclose(v, np.vstack([sv for _, sv in singles]), rtol=1e-12, atol=1e-12))
+        out.append({"rows": rows, "cls": cls, "same": same})
+    return {"outcome": "ok", "min_size": ms, "batches": out}
+
+
+def oracle_batch(c, r):
+    if r["outcome"] != "ok":
+        return f"fit raised {r['outcome']}"
+    for b in r["batches"]:
+        valid = [valid_by_property({"n": c["n"], "scorer": c["scorer"]}, r["min_size"], tuple(row)) for row in b["rows"]]
+        if all(valid) and b["cls"] != "ok":
+            return f"{c['scorer']}: the batch {b['rows']} of valid cuts is rejected / fails with {b['cls']}"
+        if not all(valid) and b["cls"] == "ok":
+            return f"{c['scorer']}: the batch {b['rows']} is evaluated although row {valid.index(False)} is invalid"
+        if not all(valid) and b["cls"] != "err":
+            return f"{c['scorer']}: the batch {b['rows']} with invalid row {valid.index(False)} raises {b['cls']} instead of ValueError"
+        if b["same"] is False:
+            return f"{c['scorer']}: the batch {b['rows']} scores differently from its rows one by one"
+    return None
+
+
 def run(chk: core.Check):
     tier = chk.tier
     chk.lean()
@@ -319,6 +380,8 @@ def run(chk: core.Check):
     chk.run_stream("malformed", malformed_cases(), impl_malformed, oracle=oracle_malformed, site="evaluate/container")
     chk.run_stream("dtypes", dtype_cases(), impl_dtype, oracle=oracle_dtype, site="evaluate/dtype", per_case_timeout=120,
                    describe=lambda c: c)
+    chk.run_stream("batches", batch_cases(), impl_batch, oracle=oracle_batch, site="evaluate/batch", per_case_timeout=120,
+                   describe=lambda c: c)
     return chk.finish()
 
 
@@ -334,6 +397,9 @@ def replay(path):
     elif v["stream"] == "dtypes":
         r = impl_dtype(case)
         print("oracle:", oracle_dtype(case, r))
+    elif v["stream"] == "batches":
+        r = impl_batch(case)
+        print("oracle:", oracle_batch(case, r))
     else:
         r = impl_box({k: x for k, x in case.items() if k != "cut"})
         print("oracle:", oracle_box(case, r))
